@@ -64,6 +64,7 @@ type Prog struct {
 	supplyCache     map[[2]any]bool
 	helperCache     map[*ssa.Function]*BF
 	helperNilCache  map[*ssa.Function]*BF
+	helperStrCache  map[*ssa.Function]*BF
 	groupCache      map[string]*Check
 }
 
